@@ -17,6 +17,7 @@ pub trait World {
 }
 
 static JOURNAL: std::sync::Mutex<Option<std::fs::File>> = std::sync::Mutex::new(None);
+static FIRST_PANIC: std::sync::Mutex<String> = std::sync::Mutex::new(String::new());
 static CUR_OP_GLOBAL: std::sync::Mutex<String> = std::sync::Mutex::new(String::new());
 
 thread_local! {
@@ -74,6 +75,11 @@ pub fn install_quiet_panic_hook() {
         if std::env::var_os("SIM_VERBOSE_PANIC").is_some() {
             eprintln!("PANIC: {msg} @ {loc}");
         }
+        if let Ok(mut f) = FIRST_PANIC.lock() {
+            if f.is_empty() {
+                *f = format!("{msg} @ {loc}");
+            }
+        }
         LAST_PANIC.with(|p| *p.borrow_mut() = format!("{msg} @ {loc}"));
     }));
 }
@@ -82,6 +88,18 @@ pub fn last_panic() -> String {
 }
 pub fn clear_last_panic() {
     LAST_PANIC.with(|p| p.borrow_mut().clear());
+    if let Ok(mut f) = FIRST_PANIC.lock() {
+        f.clear();
+    }
+}
+/// First panic (any thread) since the last `clear_first_panic`.
+pub fn first_panic() -> String {
+    FIRST_PANIC.lock().map(|f| f.clone()).unwrap_or_default()
+}
+pub fn clear_first_panic() {
+    if let Ok(mut f) = FIRST_PANIC.lock() {
+        f.clear();
+    }
 }
 
 /// Message of a caught panic payload.
